@@ -163,6 +163,8 @@ def symint(s=0, *a):
     from symex import core as C
     from symex.symstr import SymStr
 
+    if isinstance(s, SymStr) and s.sname.startswith('massnumber('):
+        return _MassNumber(s)  # only code that converts the captured digits gets here
     if isinstance(s, SymStr):
         k = ('int', s.idx)
         if k not in _CONV:
@@ -171,7 +173,35 @@ def symint(s=0, *a):
     return builtins.int(s, *a)
 
 
-def _isotope_match(string, capture_digits=False):
+class _MassNumber:
+    """int(<digits captured from the name>): renders as the canonical decimal text of the number (leading zeros dropped), which is
+    what an f-string or str() of the integer gives; as a token string it takes part in later comparisons symbolically."""
+
+    def __init__(self, dg):
+        import z3
+        from symex import core as C
+        from symex.symstr import SymStr
+
+        self.digits = dg
+        self.canon = SymStr(f'str(int({dg.sname}))')
+        zeros = z3.String(f'zeros!{self.canon.idx}')
+        d09, d19 = z3.Range('0', '9'), z3.Range('1', '9')
+        C.CTX.pc.append(C.B('z3', z3.And(dg.z == z3.Concat(zeros, self.canon.z), z3.InRe(zeros, z3.Star(z3.Re(z3.StringVal('0')))),
+                                          z3.InRe(self.canon.z, z3.Union(z3.Concat(d19, z3.Star(d09)), z3.Re(z3.StringVal('0')))),
+                                          z3.Or(z3.Length(zeros) == 0, self.canon.z != z3.StringVal('0'), z3.Length(self.canon.z) == 1))))
+
+    def __format__(self, spec):
+        from symex import core as C
+
+        if spec:
+            raise C.Unsupported('format spec on a symbolic integer')
+        return str.__str__(self.canon)
+
+    def __str__(self):
+        return self.canon
+
+
+def _isotope_match(string, capture_digits=False, full=False):
     """re.match of the isotope pattern, r'(?:\\d+)?([a-zA-Z]+)' or with the digits captured, with the capture groups
     reconstructed: name = digits* letters+ rest, letters maximal (rest does not start with a letter)."""
     import z3
@@ -188,6 +218,10 @@ def _isotope_match(string, capture_digits=False):
     dg = SymStr(f'massnumber({string.sname})')
     rest = z3.String(f'rest!{elem.idx}')
     nonletter_start = z3.Or(z3.Length(rest) == 0, z3.Not(z3.InRe(z3.SubString(rest, 0, 1), letter)))
+    if full:
+        if not bool(C.B('z3', z3.InRe(string.z, z3.Concat(digits, letters)))):
+            return None
+        nonletter_start = z3.Length(rest) == 0
     C.CTX.pc.append(C.B('z3', z3.And(string.z == z3.Concat(dg.z, elem.z, rest), z3.InRe(dg.z, digits), z3.InRe(elem.z, letters), nonletter_start)))
 
     class M:
@@ -217,6 +251,8 @@ def SymRe():
 
     symre.SPECIAL[('match', r'(?:\d+)?([a-zA-Z]+)')] = _isotope_match
     symre.SPECIAL[('match', r'(\d+)?([a-zA-Z]+)')] = lambda s_: _isotope_match(s_, capture_digits=True)
+    symre.SPECIAL[('fullmatch', r'(?:\d+)?([a-zA-Z]+)')] = lambda s_: _isotope_match(s_, full=True)
+    symre.SPECIAL[('fullmatch', r'(\d+)?([a-zA-Z]+)')] = lambda s_: _isotope_match(s_, capture_digits=True, full=True)
 
     return SymReModule(special={('match', r'(?:\d+)?([a-zA-Z]+)'): _isotope_match,
                                 ('match', r'(\d+)?([a-zA-Z]+)'): lambda s_: _isotope_match(s_, capture_digits=True)})
@@ -731,7 +767,7 @@ def replay_real(case):
             rows += 1
             if a.atomic_mass.value != float(mval) or (e and a.atomic_mass.variance != float(e) ** 2):
                 bad.append(f'{iso}: mass {a.atomic_mass} vs {mval}')
-        for near in ['h', ' H', 'H ', '1 H', 'Hx', '1Hh', 'Xx', '', '1', 'He3', '3He ', '3HE']:
+        for near in ['h', ' H', 'H ', '1 H', 'Hx', '1Hh', 'Xx', '', '1', 'He3', '3He ', '3HE', '02H', '002H', '004He', '0235U', '+2H', '2 H']:
             for fn in (atoms.ScatteringParams.for_isotope, atoms.Atom.for_isotope):
                 try:
                     r = fn(near)
